@@ -62,7 +62,10 @@ func TestC12_Ramp(t *testing.T) {
 		P := rapid.SampledFrom(cbh.MsGrid[0:5]).Draw(t, "checkPeriod")
 		phase := time.Duration(rapid.Int64Range(0, int64(time.Second)-1).Draw(t, "phase"))
 		cbh.BlockEffects = rapid.IntRange(0, 2).Draw(t, "hangingSideEffects") == 0 // webhooks that never return
+		cbh.Decoy = rapid.IntRange(0, 2).Draw(t, "secondBreakerInProcess") == 0
 		d := cbh.New(t, "NetworkErrorRatio() > 0.5", F, R, P, phase)
+		cbh.Decoy = false
+		d.ImplicitOK = rapid.IntRange(0, 2).Draw(t, "implicit200") == 0
 		cbh.BlockEffects = false
 		defer d.Close()
 		prev := "standby"
